@@ -48,6 +48,24 @@ pub struct SolverCache<D: DependencyProvider> {
     hint_dependencies_available: RefCell<BitVec>,
 }
 
+/// Removes the in-flight notifier of a package from the cache and notifies all
+/// waiters when dropped. This also happens when the future that requests the
+/// candidates from the provider is dropped before it completed, otherwise
+/// every later request for the package would wait forever.
+struct InFlightGuard<'a> {
+    in_flight: &'a RefCell<HashMap<NameId, Rc<Event>>>,
+    package_name: NameId,
+}
+
+impl Drop for InFlightGuard<'_> {
+    fn drop(&mut self) {
+        let notifier = self.in_flight.borrow_mut().remove(&self.package_name);
+        if let Some(notifier) = notifier {
+            notifier.notify(usize::MAX);
+        }
+    }
+}
+
 impl<D: DependencyProvider> SolverCache<D> {
     /// Constructs a new instance from a provider.
     pub fn new(provider: D) -> Self {
@@ -103,15 +121,27 @@ impl<D: DependencyProvider> SolverCache<D> {
                         // Found an in-flight request, wait for that request to finish and return
                         // the computed result.
                         in_flight.listen().await;
-                        self.package_name_to_candidates
-                            .get_copy(&package_name)
-                            .expect("after waiting for a request the result should be available")
+                        match self.package_name_to_candidates.get_copy(&package_name) {
+                            Some(id) => id,
+                            // The request we waited for was dropped before it completed
+                            // (e.g. the solve was cancelled). Start over.
+                            None => {
+                                return Box::pin(self.get_or_cache_candidates(package_name)).await;
+                            }
+                        }
                     }
                     None => {
                         // Prepare an in-flight notifier for other requests coming in.
                         self.package_name_to_candidates_in_flight
                             .borrow_mut()
                             .insert(package_name, Rc::new(Event::new()));
+
+                        // Removes the notifier and wakes any waiters when it goes out of
+                        // scope, also if this future is dropped while the provider is busy.
+                        let in_flight_guard = InFlightGuard {
+                            in_flight: &self.package_name_to_candidates_in_flight,
+                            package_name,
+                        };
 
                         // Otherwise we have to get them from the DependencyProvider
                         let candidates = self
@@ -147,12 +177,7 @@ impl<D: DependencyProvider> SolverCache<D> {
 
                         // Remove the in-flight request now that we inserted the result and notify
                         // any waiters
-                        let notifier = self
-                            .package_name_to_candidates_in_flight
-                            .borrow_mut()
-                            .remove(&package_name)
-                            .expect("notifier should be there");
-                        notifier.notify(usize::MAX);
+                        drop(in_flight_guard);
 
                         candidates_id
                     }
